@@ -198,11 +198,25 @@ def clause_c(ctx, P):
                                                     ("service_daemon::Command::ResolveHostname", "2")},
     }
     for enum, allow in allowed.items():
+        # fields that hold a listener Sender directly, or through a type the reference tree does not have (a tuple that a
+        # refactoring replaced by a small struct): such a carrier type is looked through
+        from ..flatten import load_known_full
+        kf = load_known_full() or {}
+        known_adts = set((kf.get("adts") or {}).keys())
+        carriers = set()
+        if known_adts:
+            for a in P.adts.values():
+                if a["name"] in known_adts or not a["name"].split("::")[0] in ("service_daemon", "service_info", "dns_cache", "dns_parser"):
+                    continue
+                if any("Sender<%s>" % enum in f["ty"] for v in a["variants"] for f in v["fields"]):
+                    carriers.add(a["name"])
         holders = set()
         for a in P.adts.values():
+            if a["name"] in carriers:
+                continue
             for v in a["variants"]:
                 for f in v["fields"]:
-                    if "Sender<%s>" % enum in f["ty"]:
+                    if "Sender<%s>" % enum in f["ty"] or any(c in f["ty"] for c in carriers):
                         owner = a["name"] if a["kind"].lower().startswith("struct") else a["name"] + "::" + v["name"]
                         holders.add((owner, f["name"]))
         extra = holders - allow
